@@ -204,6 +204,32 @@ theorem pow_exponent_too_large (a b : LB) (ha : a.wf) (hb : b.wf) (hbig : 184467
     rw [Bool.not_eq_true', ← Bool.not_eq_true, Bool.or_eq_true, isZero_iff a ha, isOne_iff aa haw, had]; omega
   rw [hc]; rfl
 
+/-- bases 0, 1 and -1: `a ** b` is the closed form for EVERY exponent `b ≥ 0` (of any magnitude and representation,
+in particular beyond the machine word, where other bases give "exponent too large"): `0^b = 0` (b > 0), `1^b = 1`,
+`(-1)^b = 1` for even `b` and `-1` for odd `b` -/
+theorem pow_unit_bases (a b : LB) (ha : a.wf) (hb : b.wf) (hneg : 0 ≤ b.den)
+    (h00 : ¬ (a.den = 0 ∧ b.den = 0)) (hu : -1 ≤ a.den ∧ a.den ≤ 1) :
+    IntB.pow a b = .int (short (if a.den = 0 then 0 else if a.den = 1 then 1 else if b.den % 2 = 0 then 1 else -1)) := by
+  obtain ⟨r, hr, hw, hd⟩ := pow_correct a b ha hb hneg h00 (Or.inr hu)
+  rw [hr]; congr 1
+  apply Ops.wf_den_inj r _ hw
+  · rw [wf_short]; (repeat' split) <;> omega
+  · rw [hd, den_short]
+    by_cases h0 : a.den = 0
+    · rw [if_pos h0, h0, Int.zero_pow (by omega)]
+    · rw [if_neg h0]
+      by_cases h1 : a.den = 1
+      · rw [if_pos h1, h1, Int.one_pow]
+      · rw [if_neg h1]
+        have hm : a.den = -1 := by omega
+        rw [hm, Arith.neg_one_pow]
+        by_cases he : b.den % 2 = 0
+        · rw [if_pos he, if_pos (by omega)]
+        · rw [if_neg he, if_neg (by omega)]
+
+example : IntB.pow (short (-1)) (long 18446744073709551616) = .int (short 1) := by decide
+example : IntB.pow (short (-1)) (long 18446744073709551617) = .int (short (-1)) := by decide
+
 theorem pow_negative_exponent (a b : LB) (hneg : b.den < 0) :
     IntB.pow a b = .err "cannot raise integer to a negative power" := by
   unfold IntB.pow; rw [if_pos ((isNegative_iff b).mpr hneg)]
